@@ -176,7 +176,13 @@ def _merge2(s1, s2):
         out.fh[k_] = pick(s1.fh.get(k_), s2.fh.get(k_))
     out.err = pick(s1.err, s2.err)
     for k_ in set(s1.ghost) | set(s2.ghost):
-        out.ghost[k_] = pick(s1.ghost.get(k_), s2.ghost.get(k_))
+        a_, b_ = s1.ghost.get(k_), s2.ghost.get(k_)
+        if a_ is None or b_ is None:
+            # absent on one side = still the value at function entry (the G0_ constant of that ghost)
+            other = b_ if a_ is None else a_
+            init = z3.Const('G0_' + (k_[2:] if k_.startswith('g:') else k_), other.sort())
+            a_, b_ = (init if a_ is None else a_), (init if b_ is None else b_)
+        out.ghost[k_] = pick(a_, b_)
     return out
 
 
